@@ -129,7 +129,29 @@ pub fn run(tier: &str) -> i32 {
             bad
         })
         .collect();
-    rep.eval((lists.len() * 4 * 5) as u64);
+    // an encoded length that is a non-zero multiple of 2^32 must not come out as an entry of length 0 either
+    for comp in 1..=4u8 {
+        let c = comp_of_code(comp).unwrap();
+        for len in [1u64 << 32, 2 << 32, (1 << 32) * 1000, 1 << 63] {
+            for at in [0usize, 1] {
+                let mut raw: Vec<u64> = vec![2, 5, 3, 1, 1, 7, 7, 4, 0];
+                raw[5 + at] = len;
+                let mut b = Vec::new();
+                for v in raw.iter() {
+                    crate::spec::varint::put(&mut b, *v);
+                }
+                let packed = codec::compress(comp, &b);
+                for (api, r) in [("sync", dir_read_sync(&packed, c)), ("async", dir_read_async(&packed, c))] {
+                    match r {
+                        Out::Err(_) => {}
+                        Out::Ok(es) if es.iter().all(|e| e.length != 0) && false => {}
+                        o => rep.violation(format!("length-multiple-of-2^32-parsed/{api}"), format!("encoded entry length {len} (does not fit 32 bits): parser returned {}", o.describe()), json!({"kind":"len-2^32","len":len.to_string(),"comp":comp,"at":at})),
+                    }
+                }
+            }
+        }
+    }
+    rep.eval((lists.len() * 4 * 5) as u64 + 64);
     rep.nontrivial(lists.len() as u64);
     rep.count("zero_length_directories", lists.len() as u64);
     for (k, d, c) in res {
@@ -216,6 +238,20 @@ pub fn run(tier: &str) -> i32 {
             }
             f.bytes[97] = 0;
             nu += 1;
+            // range-filtered opens (also empty and inverted ranges) must refuse it just the same
+            for (lo, hi) in [(5u64, 5u64), (9, 3), (0, 1), (0, u64::MAX)] {
+                let r1 = crate::common::catch(|| PMTiles::from_bytes_partially(f.bytes.as_slice(), lo..hi).map(|p| p.num_tiles()).map_err(|e| e.to_string()));
+                let r2 = crate::common::catch(|| block_on(PMTiles::from_async_reader_partially(futures::io::Cursor::new(f.bytes.as_slice()), lo..hi)).map(|p| p.num_tiles()).map_err(|e| e.to_string()));
+                for (api, r) in [("sync", r1), ("async", r2)] {
+                    if !matches!(r, Ok(Err(_))) {
+                        rep.violation(
+                            format!("unknown-compression-opened-partially/{api}"),
+                            format!("archive with internal compression byte 0 (metadata {}, root {}) opened with range {lo}..{hi}: {r:?}", if with_meta { "present" } else { "empty" }, if with_root { "present" } else { "empty" }),
+                            json!({"kind":"unknown-open-partial","comp":base_comp,"with_meta":with_meta,"with_root":with_root,"api":api,"range":[lo.to_string(), hi.to_string()]}),
+                        );
+                    }
+                }
+            }
             for api in APIS {
                 match open_view(&f.bytes, api, &[0]) {
                     Err(e) if !e.starts_with("PANIC") => {}
